@@ -145,7 +145,14 @@ func (a *accountsProvider) SyncCommitteeAccountsForEpochByIndex(_ context.Contex
 	if indices == nil {
 		indices = []phase0.ValidatorIndex{}
 	}
-	return a.pick(indices), nil
+	out := a.pick(indices)
+	if a.m.P.HideSync {
+		if _, ok := out[phase0.ValidatorIndex(a.m.P.HideSyncAccount)]; ok {
+			delete(out, phase0.ValidatorIndex(a.m.P.HideSyncAccount))
+			simrt.Probe("fault:sync-member-without-account")
+		}
+	}
+	return out, nil
 }
 func (a *accountsProvider) Refresh(_ context.Context) { simrt.Yield("accounts/refresh") }
 
@@ -200,7 +207,10 @@ func (s *recScheduler) ListJobs(ctx context.Context) []string { return s.inner.L
 
 // ---- recorders for the focused variant
 
-type recAttester struct{ r *Record }
+type recAttester struct {
+	r     *Record
+	inner attester.Service
+}
 
 func (a *recAttester) Attest(ctx context.Context, duty *attester.Duty) ([]*phase0.Attestation, error) {
 	inv := &Invocation{Kind: "attest", Slot: uint64(duty.Slot()), Inc: simrt.CurrentInc(), Step: simrt.Step(), T: simrt.Now(), Committees: map[int]int{}}
@@ -210,26 +220,45 @@ func (a *recAttester) Attest(ctx context.Context, duty *attester.Duty) ([]*phase
 	}
 	sort.Ints(inv.Validators)
 	a.r.addInv(inv)
+	if a.inner != nil {
+		res, err := a.inner.Attest(ctx, duty)
+		inv.EndStep = simrt.Step()
+		return res, err
+	}
 	simrt.Sleep(ctx, 300*time.Millisecond, "rec/attest")
 	inv.EndStep = simrt.Step()
 	return nil, nil
 }
 
-type recProposer struct{ r *Record }
+type recProposer struct {
+	r     *Record
+	inner beaconblockproposer.Service
+}
 
-func (p *recProposer) Prepare(_ context.Context, duty *beaconblockproposer.Duty) error {
+func (p *recProposer) Prepare(ctx context.Context, duty *beaconblockproposer.Duty) error {
 	p.r.addInv(&Invocation{Kind: "prepare-proposal", Slot: uint64(duty.Slot()), Validators: []int{int(duty.ValidatorIndex())}, Inc: simrt.CurrentInc(), Step: simrt.Step(), T: simrt.Now()})
+	if p.inner != nil {
+		return p.inner.Prepare(ctx, duty)
+	}
 	simrt.Yield("rec/prepare")
 	return nil
 }
 func (p *recProposer) Propose(ctx context.Context, duty *beaconblockproposer.Duty) {
 	inv := &Invocation{Kind: "propose", Slot: uint64(duty.Slot()), Validators: []int{int(duty.ValidatorIndex())}, Inc: simrt.CurrentInc(), Step: simrt.Step(), T: simrt.Now()}
 	p.r.addInv(inv)
+	if p.inner != nil {
+		p.inner.Propose(ctx, duty)
+		inv.EndStep = simrt.Step()
+		return
+	}
 	simrt.Sleep(ctx, 500*time.Millisecond, "rec/propose")
 	inv.EndStep = simrt.Step()
 }
 
-type recSyncMessenger struct{ r *Record }
+type recSyncMessenger struct {
+	r     *Record
+	inner synccommitteemessenger.Service
+}
 
 func syncVals(duty *synccommitteemessenger.Duty) []int {
 	var out []int
@@ -239,38 +268,79 @@ func syncVals(duty *synccommitteemessenger.Duty) []int {
 	sort.Ints(out)
 	return out
 }
-func (m *recSyncMessenger) Prepare(_ context.Context, duty *synccommitteemessenger.Duty) error {
+func (m *recSyncMessenger) Prepare(ctx context.Context, duty *synccommitteemessenger.Duty) error {
 	m.r.addInv(&Invocation{Kind: "sync-prepare", Slot: uint64(duty.Slot()), Validators: syncVals(duty), Inc: simrt.CurrentInc(), Step: simrt.Step(), T: simrt.Now()})
+	if m.inner != nil {
+		return m.inner.Prepare(ctx, duty)
+	}
 	simrt.Yield("rec/syncprepare")
 	return nil
 }
 func (m *recSyncMessenger) Message(ctx context.Context, duty *synccommitteemessenger.Duty) ([]*altair.SyncCommitteeMessage, error) {
 	inv := &Invocation{Kind: "sync-message", Slot: uint64(duty.Slot()), Validators: syncVals(duty), Inc: simrt.CurrentInc(), Step: simrt.Step(), T: simrt.Now()}
 	m.r.addInv(inv)
+	if m.inner != nil {
+		res, err := m.inner.Message(ctx, duty)
+		inv.EndStep = simrt.Step()
+		return res, err
+	}
 	simrt.Sleep(ctx, 200*time.Millisecond, "rec/syncmessage")
 	inv.EndStep = simrt.Step()
 	return nil, nil
 }
-func (m *recSyncMessenger) GetDataUsedForSlot(_ phase0.Slot) (synccommitteemessenger.SlotData, bool) {
+func (m *recSyncMessenger) GetDataUsedForSlot(slot phase0.Slot) (synccommitteemessenger.SlotData, bool) {
+	if m.inner != nil {
+		return m.inner.GetDataUsedForSlot(slot)
+	}
 	return synccommitteemessenger.SlotData{}, false
 }
-func (m *recSyncMessenger) RemoveHistoricDataUsedForSlotVerification(_ phase0.Slot) {}
+func (m *recSyncMessenger) RemoveHistoricDataUsedForSlotVerification(slot phase0.Slot) {
+	if m.inner != nil {
+		m.inner.RemoveHistoricDataUsedForSlotVerification(slot)
+	}
+}
 
-type recSyncAggregator struct{ r *Record }
+type recSyncAggregator struct {
+	r     *Record
+	inner synccommitteeaggregator.Service
+}
 
-func (a *recSyncAggregator) SetBeaconBlockRoot(_ phase0.Slot, _ phase0.Root) {}
-func (a *recSyncAggregator) Aggregate(_ context.Context, duty *synccommitteeaggregator.Duty) {
-	a.r.addInv(&Invocation{Kind: "sync-aggregate", Slot: uint64(duty.Slot), Inc: simrt.CurrentInc(), Step: simrt.Step(), T: simrt.Now()})
+func (a *recSyncAggregator) SetBeaconBlockRoot(slot phase0.Slot, root phase0.Root) {
+	if a.inner != nil {
+		a.inner.SetBeaconBlockRoot(slot, root)
+	}
+}
+func (a *recSyncAggregator) Aggregate(ctx context.Context, duty *synccommitteeaggregator.Duty) {
+	inv := &Invocation{Kind: "sync-aggregate", Slot: uint64(duty.Slot), Inc: simrt.CurrentInc(), Step: simrt.Step(), T: simrt.Now()}
+	for _, v := range duty.ValidatorIndices {
+		inv.Validators = append(inv.Validators, int(v))
+	}
+	sort.Ints(inv.Validators)
+	a.r.addInv(inv)
+	if a.inner != nil {
+		a.inner.Aggregate(ctx, duty)
+		return
+	}
 	simrt.Yield("rec/syncaggregate")
 }
 
-type recAggregator struct{ r *Record }
+type recAggregator struct {
+	r     *Record
+	inner attestationaggregator.Service
+}
 
-func (a *recAggregator) Aggregate(_ context.Context, d *attestationaggregator.Duty) {
+func (a *recAggregator) Aggregate(ctx context.Context, d *attestationaggregator.Duty) {
 	a.r.addInv(&Invocation{Kind: "aggregate", Slot: uint64(d.Slot), Validators: []int{int(d.ValidatorIndex)}, Inc: simrt.CurrentInc(), Step: simrt.Step(), T: simrt.Now()})
+	if a.inner != nil {
+		a.inner.Aggregate(ctx, d)
+		return
+	}
 	simrt.Yield("rec/aggregate")
 }
-func (a *recAggregator) AggregatorsAndSignatures(_ context.Context, accounts []e2wtypes.Account, _ phase0.Slot, _ []uint64) ([]phase0.BLSSignature, []bool, error) {
+func (a *recAggregator) AggregatorsAndSignatures(ctx context.Context, accounts []e2wtypes.Account, slot phase0.Slot, sizes []uint64) ([]phase0.BLSSignature, []bool, error) {
+	if a.inner != nil {
+		return a.inner.AggregatorsAndSignatures(ctx, accounts, slot, sizes)
+	}
 	return make([]phase0.BLSSignature, len(accounts)), make([]bool, len(accounts)), nil
 }
 
@@ -362,8 +432,8 @@ func Build(ctx context.Context, rec *Record, nodes []*Node, waitedForGenesis boo
 	}
 	events := &multiEvents{nodes: nodes}
 	if p.Focused {
-		attSvc, propSvc, aggSvc, subSvc = &recAttester{rec}, &recProposer{rec}, &recAggregator{rec}, &recCommitteeSubscriber{rec}
-		msgSvc, syncAggSvc = &recSyncMessenger{rec}, &recSyncAggregator{rec}
+		attSvc, propSvc, aggSvc, subSvc = &recAttester{r: rec}, &recProposer{r: rec}, &recAggregator{r: rec}, &recCommitteeSubscriber{rec}
+		msgSvc, syncAggSvc = &recSyncMessenger{r: rec}, &recSyncAggregator{r: rec}
 	} else {
 		signerSvc, err := standardsigner.New(ctx, standardsigner.WithLogLevel(lvl), standardsigner.WithMonitor(mon), standardsigner.WithClientMonitor(mon), standardsigner.WithSpecProvider(n0), standardsigner.WithDomainProvider(n0))
 		if err != nil {
@@ -414,7 +484,7 @@ func Build(ctx context.Context, rec *Record, nodes []*Node, waitedForGenesis boo
 		if err != nil {
 			return nil, err
 		}
-		attSvc = sys.Attester
+		attSvc = &recAttester{r: rec, inner: sys.Attester}
 		agg, err := standardattestationaggregator.New(ctx, standardattestationaggregator.WithLogLevel(lvl), standardattestationaggregator.WithSpecProvider(n0), standardattestationaggregator.WithMonitor(mon),
 			standardattestationaggregator.WithValidatingAccountsProvider(accs), standardattestationaggregator.WithAggregateAttestationProvider(n0),
 			standardattestationaggregator.WithAggregateAttestationsSubmitter(sub.(submitter.AggregateAttestationsSubmitter)), standardattestationaggregator.WithSlotSelectionSigner(signerSvc),
@@ -422,9 +492,9 @@ func Build(ctx context.Context, rec *Record, nodes []*Node, waitedForGenesis boo
 		if err != nil {
 			return nil, err
 		}
-		aggSvc = agg
+		aggSvc = &recAggregator{r: rec, inner: agg}
 		subSvc, err = standardbeaconcommitteesubscriber.New(ctx, standardbeaconcommitteesubscriber.WithLogLevel(lvl), standardbeaconcommitteesubscriber.WithProcessConcurrency(4), standardbeaconcommitteesubscriber.WithMonitor(mon),
-			standardbeaconcommitteesubscriber.WithChainTimeService(sys.ChainTime), standardbeaconcommitteesubscriber.WithAttesterDutiesProvider(n0), standardbeaconcommitteesubscriber.WithAttestationAggregator(agg),
+			standardbeaconcommitteesubscriber.WithChainTimeService(sys.ChainTime), standardbeaconcommitteesubscriber.WithAttesterDutiesProvider(SubscriberView{n0}), standardbeaconcommitteesubscriber.WithAttestationAggregator(agg),
 			standardbeaconcommitteesubscriber.WithBeaconCommitteeSubmitter(sub.(submitter.BeaconCommitteeSubscriptionsSubmitter)))
 		if err != nil {
 			return nil, err
@@ -436,7 +506,7 @@ func Build(ctx context.Context, rec *Record, nodes []*Node, waitedForGenesis boo
 		if err != nil {
 			return nil, err
 		}
-		syncAggSvc = sys.SyncAggregator
+		syncAggSvc = &recSyncAggregator{r: rec, inner: sys.SyncAggregator}
 		sys.Messenger, err = standardsynccommitteemessenger.New(ctx, standardsynccommitteemessenger.WithLogLevel(lvl), standardsynccommitteemessenger.WithProcessConcurrency(4), standardsynccommitteemessenger.WithMonitor(mon),
 			standardsynccommitteemessenger.WithChainTimeService(sys.ChainTime), standardsynccommitteemessenger.WithSyncCommitteeAggregator(sys.SyncAggregator), standardsynccommitteemessenger.WithSpecProvider(n0),
 			standardsynccommitteemessenger.WithBeaconBlockRootProvider(n0), standardsynccommitteemessenger.WithSyncCommitteeMessagesSubmitter(sub.(submitter.SyncCommitteeMessagesSubmitter)),
@@ -445,18 +515,19 @@ func Build(ctx context.Context, rec *Record, nodes []*Node, waitedForGenesis boo
 		if err != nil {
 			return nil, err
 		}
-		msgSvc = sys.Messenger
+		msgSvc = &recSyncMessenger{r: rec, inner: sys.Messenger}
 		graffiti, err := staticgraffiti.New(ctx, staticgraffiti.WithLogLevel(lvl), staticgraffiti.WithGraffiti([]byte("verif")))
 		if err != nil {
 			return nil, err
 		}
-		propSvc, err = standardbeaconblockproposer.New(ctx, standardbeaconblockproposer.WithLogLevel(lvl), standardbeaconblockproposer.WithChainTime(sys.ChainTime), standardbeaconblockproposer.WithProposalDataProvider(n0),
+		realProp, err := standardbeaconblockproposer.New(ctx, standardbeaconblockproposer.WithLogLevel(lvl), standardbeaconblockproposer.WithChainTime(sys.ChainTime), standardbeaconblockproposer.WithProposalDataProvider(n0),
 			standardbeaconblockproposer.WithMonitor(mon), standardbeaconblockproposer.WithValidatingAccountsProvider(accs), standardbeaconblockproposer.WithExecutionChainHeadProvider(execHead{}),
 			standardbeaconblockproposer.WithGraffitiProvider(graffiti), standardbeaconblockproposer.WithProposalSubmitter(sub.(submitter.ProposalSubmitter)), standardbeaconblockproposer.WithRANDAORevealSigner(signerSvc),
 			standardbeaconblockproposer.WithBeaconBlockSigner(signerSvc), standardbeaconblockproposer.WithBlobSidecarSigner(signerSvc))
 		if err != nil {
 			return nil, err
 		}
+		propSvc = &recProposer{r: rec, inner: realProp}
 	}
 	sys.Controller, err = standardcontroller.New(ctx,
 		standardcontroller.WithLogLevel(lvl), standardcontroller.WithMonitor(mon), standardcontroller.WithSpecProvider(n0), standardcontroller.WithChainTimeService(sys.ChainTime),
@@ -487,7 +558,15 @@ type Hooks struct {
 func Run(ctx context.Context, p *Plan, hooks *Hooks) *Record {
 	m := NewModel(p)
 	rec := &Record{Plan: p, Model: m, H: &History{}, Signer: &SignerLog{}, Script: &Script{Outcomes: p.Faults}}
-	if len(p.SignerFaults) > 0 {
+	if p.SyncZero {
+		syncDomainType := DomainSyncCommittee
+		rec.Signer.Fault = func(r *SignReq) (string, time.Duration) {
+			if r.KeyIndex == p.SyncZeroSig && r.Method == "SignGenericMulti" && len(r.Domain) == 32 && string(r.Domain[:4]) == string(syncDomainType[:]) {
+				return "zero", 0
+			}
+			return "", 0
+		}
+	} else if len(p.SignerFaults) > 0 {
 		rec.Signer.Fault = func(r *SignReq) (string, time.Duration) {
 			n := 0
 			simrt.Crit(func() { n = len(rec.Signer.Reqs) })
